@@ -19,7 +19,8 @@ def inject(demo):
     target = m.group(1)
     path = os.path.join(WT, target)
     body = open(path).read()
-    inside = re.search(r"mod tests\s*\{", body) is not None and ("mod tests" in "\n".join(l for l in src.splitlines()[:12]) or src.lstrip().startswith("//") and src.split("#[test]")[0].count("    ") and re.search(r"^    #\[test\]", src, re.M))
+    head = "\n".join(l for l in src.splitlines()[:12])
+    inside = re.search(r"mod tests\s*\{", body) is not None and (re.search(r"`tests` module|tests module|mod tests", head) is not None or "mod tests" in "\n".join(l for l in src.splitlines()[:12]) or src.lstrip().startswith("//") and src.split("#[test]")[0].count("    ") and re.search(r"^    #\[test\]", src, re.M))
     if inside:
         idx = body.rstrip().rfind("}")
         body = body[:idx] + "\n" + src + "\n}\n"
